@@ -5,10 +5,13 @@
        path:  steps joined by `/`, step = `f<i>` | `v<v>.<i>`
      → `lay=…;ref=…;nc=…;nd=…;lt=…;paths=…;clone=…;drop=…;eq=…`
    `c02 spec <program>` → see `RotoV.Model.ValueSpec` (behavioural oracle)
+   `c02 ctor <expr> <store> <ret> <n> <instr>*n` → see `Driver.C02Ctor` (the real lowerer's MIR of a
+       constructor, run against the value-semantics spec `RotoV.Model.ValueCtor`)
 -/
 import Driver.Util
 import RotoV.Model.LayoutOps
 import RotoV.Model.ValueSpec
+import Driver.C02Ctor
 
 namespace Driver.C02
 open RotoV
@@ -162,6 +165,7 @@ def handle (args : List String) : String :=
       | none => "bad-path"
     | _ => "bad-type"
   | "spec" :: rest => RotoV.ValueSpec.handle rest
+  | "ctor" :: rest => Driver.C02Ctor.handle rest
   | _ => "bad-op"
 
 end Driver.C02
